@@ -128,6 +128,10 @@ def wrap(
     # Re-wrapping causes these to be two spaces; correct for this.
     text = text.replace("\n ", "\n")
 
+    # `textwrap` expands tabs. Expand them up front so that the length of the
+    # wrapped first line matches the text it is subsequently cut from.
+    text = text.expandtabs()
+
     # Break off the first line of the string to address non-zero offsets.
     first = text.split("\n")[0] + "\n"
 
